@@ -60,13 +60,17 @@ def stripPrefixB? : (pre s : Bytes) → Option Bytes
   | _ :: _, [] => none
   | p :: ps, c :: cs => if p = c then stripPrefixB? ps cs else none
 
-/-- `remove_indent(indent, src)` -/
+/-- `remove_indent(indent, src)`: `.enumerate().map(|(i, line)| if i == 0 { line } else
+{ strip_prefix or line })` — line 0 is kept untouched (repair e39e245) -/
 def removeIndent (indent : Nat) (src : Bytes) : Bytes :=
   let indentation := List.replicate indent SP
-  joinNL ((splitNL src).map fun line =>
+  let strip := fun (line : Bytes) =>
     match stripPrefixB? indentation line with
     | some stripped => stripped
-    | none => line)
+    | none => line
+  match splitNL src with
+  | [] => []                       -- unreachable: `split` yields at least one piece
+  | l :: ls => joinNL (l :: ls.map strip)
 
 /-- `indent_lines_impl(indent, lines)` -/
 def indentLinesImpl (indent : Nat) (lines : List Bytes) : Bytes :=
